@@ -304,10 +304,123 @@ def translate():
     return render(w)
 
 
+# ----------------------------------------------------------------------------- multi_D: the element-name tests
+
+class CText:
+    """canonical text of a C++ condition / small expression; locals are named x0, x1, ... by first appearance"""
+    def __init__(self):
+        self.names = {}
+
+    def t(self, n):
+        k = n.get("kind")
+        if k in ("ImplicitCastExpr", "CStyleCastExpr", "ParenExpr", "ExprWithCleanups", "MaterializeTemporaryExpr",
+                 "CXXBindTemporaryExpr", "CXXStaticCastExpr", "CXXFunctionalCastExpr", "ConstantExpr"):
+            return self.t(n["inner"][0])
+        if k == "BinaryOperator":
+            a, b, op = self.t(n["inner"][0]), self.t(n["inner"][1]), n["opcode"]
+            if op in (">", ">="):
+                a, b, op = b, a, {">": "<", ">=": "<="}[op]
+            return "(%s%s%s)" % (a, op, b)
+        if k == "UnaryOperator":
+            return "%s(%s)" % (n["opcode"], self.t(n["inner"][0]))
+        if k == "CallExpr":
+            return "%s(%s)" % (self.t(n["inner"][0]), ",".join(self.t(a) for a in n["inner"][1:]))
+        if k == "CXXMemberCallExpr":
+            return "%s(%s)" % (self.t(n["inner"][0]), ",".join(self.t(a) for a in n["inner"][1:]))
+        if k == "MemberExpr":
+            base = n["inner"][0]
+            while base.get("kind") in ("ImplicitCastExpr", "ParenExpr"):
+                base = base["inner"][0]
+            if base.get("kind") == "CXXThisExpr":
+                return n["name"]
+            return "%s.%s" % (self.t(base), n["name"])
+        if k == "CXXOperatorCallExpr":
+            op = self.t(n["inner"][0])
+            if op == "operator->":
+                return self.t(n["inner"][1])
+            if op == "operator[]":
+                return "%s[%s]" % (self.t(n["inner"][1]), self.t(n["inner"][2]))
+            return "%s(%s)" % (op, ",".join(self.t(a) for a in n["inner"][1:]))
+        if k == "ArraySubscriptExpr":
+            return "%s[%s]" % (self.t(n["inner"][0]), self.t(n["inner"][1]))
+        if k == "DeclRefExpr":
+            d = n["referencedDecl"]
+            if d.get("kind") == "VarDecl":
+                if d["id"] not in self.names:
+                    self.names[d["id"]] = "x%d" % len(self.names)
+                return self.names[d["id"]]
+            return d.get("name", "?")
+        if k == "StringLiteral":
+            return n.get("value", "?").replace('"', "'")
+        if k in ("IntegerLiteral", "FloatingLiteral"):
+            return n["value"]
+        raise Refusal("multi_D name test: unsupported node " + str(k))
+
+
+def name_tests():
+    """every `if` of Phreeqc::multi_D whose condition calls strncmp, with the latest assignments to the integer
+    locals it reads, in source order"""
+    src = os.path.join(vlib.REPO, "src", "phreeqcpp", "transport.cpp")
+    objs = clang_ast(src, "multi_D")
+    fns = [o for o in objs if o.get("kind") == "CXXMethodDecl" and o.get("name") == "multi_D"
+           and any(c.get("kind") == "CompoundStmt" for c in o.get("inner", []))]
+    if len(fns) != 1:
+        raise Refusal("expected exactly one definition of Phreeqc::multi_D, found %d" % len(fns))
+    items = []
+    last_assign = {}
+
+    def refs(n, acc):
+        if n.get("kind") == "DeclRefExpr" and n["referencedDecl"].get("kind") == "VarDecl":
+            acc.append(n["referencedDecl"])
+        for c in n.get("inner", []) or []:
+            refs(c, acc)
+        return acc
+
+    def uses_strncmp(n):
+        if n.get("kind") == "DeclRefExpr" and n["referencedDecl"].get("name") == "strncmp":
+            return True
+        return any(uses_strncmp(c) for c in n.get("inner", []) or [])
+
+    def walk(n):
+        k = n.get("kind")
+        if k == "BinaryOperator" and n.get("opcode") == "=":
+            lhs = n["inner"][0]
+            if lhs.get("kind") == "DeclRefExpr" and lhs["referencedDecl"].get("kind") == "VarDecl" and \
+                    (lhs.get("type") or {}).get("qualType") == "int":
+                last_assign[lhs["referencedDecl"]["id"]] = n
+        if k == "IfStmt" and uses_strncmp(n["inner"][0]):
+            ct = CText()
+            cond = ct.t(n["inner"][0])
+            assigns = []
+            for d in refs(n["inner"][0], []):
+                if d["id"] in last_assign and (d.get("type") or {}).get("qualType") == "int":
+                    txt = ct.t(last_assign[d["id"]])
+                    if txt not in assigns:
+                        assigns.append(txt)
+            items.append((cond, assigns))
+        for c in n.get("inner", []) or []:
+            walk(c)
+
+    walk(fns[0])
+    return items
+
+
+def render_mcd(items):
+    out = ["(* GENERATED by translator/c11_initmix.py from src/phreeqcpp/transport.cpp (Phreeqc::multi_D). Do not edit. *)",
+           "From Coq Require Import String List.", "Import ListNotations.", "",
+           "(* every `if` whose condition calls strncmp, with the latest assignments to the int locals it reads (canonical local names) *)",
+           "Definition name_tests : list (string * list string) := ["]
+    out.append(";\n".join("  (%s, [%s])" % (coq_string(c), "; ".join(coq_string(a) for a in asg)) for c, asg in items))
+    out.append("].")
+    return "\n".join(out) + "\n"
+
+
 def generate():
     text = translate()
     vlib.write_if_changed(os.path.join(vlib.COQ, "Gen", "Gen_C11_initmix.v"), text)
+    vlib.write_if_changed(os.path.join(vlib.COQ, "Gen", "Gen_C11_mcd.v"), render_mcd(name_tests()))
 
 
 if __name__ == "__main__":
     sys.stdout.write(translate())
+    sys.stdout.write(render_mcd(name_tests()))
